@@ -135,6 +135,18 @@ fn unix_buffered_wouldblock(_sc: &Value) -> Value {
                 viol.push(json!({"prop": prop, "clause": "returns-socket-error", "detail": "the peer's queue is full but an oversized emit (written directly) returned Ok".to_string()}));
             }
         }
+        // C14: every call that failed did so because one datagram was refused; nothing was accepted
+        let st = sink.stats();
+        let failed_calls = [f.is_err(), r2.is_err()].iter().filter(|b| **b).count() as u64;
+        if st.packets_sent != 0 || st.bytes_sent != 0 {
+            viol.push(json!({"prop": "C14", "clause": "packets", "detail": format!("the socket accepted nothing (peer queue full) but the sink reports {:?}", st)}));
+        }
+        if st.packets_dropped < failed_calls {
+            viol.push(json!({"prop": "C14", "clause": "packets", "detail": format!("{} calls failed with the socket's WouldBlock (each a refused datagram) but packets_dropped = {} ({:?})", failed_calls, st.packets_dropped, st)}));
+        }
+        if st.bytes_dropped < 6 * failed_calls {
+            viol.push(json!({"prop": "C14", "clause": "bytes", "detail": format!("{} datagrams of at least 6 bytes were refused but bytes_dropped = {} ({:?})", failed_calls, st.bytes_dropped, st)}));
+        }
     }
     let _ = std::fs::remove_dir_all(&dir);
     json!({"violations": viol, "log": format!("filled {} control {:?} emit {:?} flush {:?} big {:?}", filled, control.map_err(|e| e.kind()), r1.map_err(|e| e.kind()), f.map_err(|e| e.kind()), r2.map_err(|e| e.kind()))})
